@@ -4,6 +4,14 @@ import "time"
 
 // The registered harness runs per property.  Parameters are the stated bounds.
 var checks = map[string][]HarnessSpec{
+	"C16": {
+		{Name: "HarnessC16Structure", Pkg: "leaf", Quick: map[string]int{"N": 3, "ASCII": 1}, Thorough: map[string]int{"N": 4, "ASCII": 1}},
+		{Name: "HarnessC16Structure", Pkg: "leaf", Quick: map[string]int{"N": 2, "ASCII": 0}, Thorough: map[string]int{"N": 3, "ASCII": 0}, Note: "all 256 byte values"},
+		{Name: "HarnessC16KeywordCase", Pkg: "leaf"},
+		{Name: "HarnessC16LiteralTypeCase", Pkg: "leaf"},
+		{Name: "HarnessC16Whitespace", Pkg: "leaf", Quick: map[string]int{"W": 2, "ASCII": 1}, Thorough: map[string]int{"W": 3, "ASCII": 1}},
+		{Name: "HarnessC16PrintedForms", Pkg: "leaf", Quick: map[string]int{"P": 2, "ASCII": 1}, Thorough: map[string]int{"P": 3, "ASCII": 1}},
+	},
 	"C06": {
 		{Name: "HarnessC06Node", Pkg: "leaf", Quick: map[string]int{"L": 2}, Thorough: map[string]int{"L": 3}},
 		{Name: "HarnessC06LiteralDefined", Pkg: "leaf", Quick: map[string]int{"L": 3}, Thorough: map[string]int{"L": 6}, PoolDirty: true},
@@ -36,6 +44,7 @@ func assumptionsFor(prop string) []string {
 }
 
 var propAssumptions = map[string][]string{
+	"C16": {"inputs: all strings up to N bytes over 7-bit bytes, and over all 256 byte values up to a smaller N; channel capacities 0, 1, N+1", "whitespace property: both words are assumed to lex, on their own, to exactly one non-error token (the property speaks of whitespace between two tokens)", "printed forms: node types and ids in the documented domain (types without '<' '>'), predicate ids / text without '\"', anchors from a concrete pool of four instants", "unicode.IsLetter/IsDigit/IsSpace/ToLower on symbolic runes are summarised exactly (range tables computed from the same Go release)"},
 	"C06": {"SHA-1 truncated to a version-5 UUID is modelled as real SHA-1 on concrete input and as 16 uninterpreted byte functions per input length on symbolic input, with injectivity instantiated for every pair of applications on a path: no claim about SHA-1 collisions", "node text restricted to the documented domain (no whitespace, no <> in ids, type starts with / and does not end with /)", "temporal anchors: seconds from a concrete pool {0,1,1.6e9}, nanoseconds fully symbolic, three zones; float64 values from a concrete pool of 9 (compared by bit pattern)", "sync.Pool.Get may return a previously Put (dirty) buffer in HarnessC06LiteralDefined"},
 	"C15": {"time.Parse/Format are interpreted from the Go standard library source on the anchor text; re-print obligations are asserted for immutable predicates only", "float64 literals: accepted inputs are not re-printed (float formatting of symbolic values is outside the encoding)"},
 }
